@@ -2,6 +2,7 @@ package c11
 
 import (
 	"bytes"
+	"errors"
 	"fmt"
 	"math"
 	"sort"
@@ -262,7 +263,8 @@ func (b *base) requestSignature(ctx sdk.Context, c contentCase, sender, memo str
 
 func runDirect(e *env, t tally) {
 	b0 := e.pool.get(0)
-	senders := []string{bandtesting.Alice.Address.String(), bandtesting.Bob.Address.String()}
+	// two users and the module authority (fee-exempt requester; allowed kinds are accepted from it too)
+	senders := []string{bandtesting.Alice.Address.String(), bandtesting.Bob.Address.String(), b0.w.App.BandtssKeeper.GetAuthority()}
 	memos := []string{"", "a", "A", " a", "a ", "a|b", strings.Repeat("m", 100), strings.Repeat("m", 101)}
 	times := []int64{b0.baseTime, 0, 1, maxBlockTime}
 	ids := []uint64{1, 2, math.MaxUint64}
@@ -410,25 +412,48 @@ func runInternal(e *env, t tally) {
 	cases = append(cases,
 		contentCase{kind: "tunnel", tag: "zero-value", desc: "TunnelSignatureOrder{}", content: &tunneltypes.TunnelSignatureOrder{}},
 		contentCase{kind: "transition", tag: "zero-value", desc: "GroupTransitionSignatureOrder{}", content: &bandtsstypes.GroupTransitionSignatureOrder{}})
-	senders := []string{bandtesting.Alice.Address.String(), bandtesting.Bob.Address.String(), bandtesting.Validators[0].Address.String()}
+	// senders: ordinary accounts, a validator, and the privileged ones - the module authority (the
+	// governance account, i.e. an executed proposal; it is exempt from the signing fee), the bandtss
+	// module account (the requester of genuine transition signings) and a funded member of the
+	// current tss group.  MsgRequestSignature is the user entry point whoever signs it.
+	member := b.g1.Accounts[0].Address
+	type snd struct{ role, addr string }
+	senders := []snd{
+		{"user", bandtesting.Alice.Address.String()}, {"user", bandtesting.Bob.Address.String()}, {"validator", bandtesting.Validators[0].Address.String()},
+		{"authority", b.w.App.BandtssKeeper.GetAuthority()}, {"bandtss-module", b.bandtssAddr}, {"tss-member", member.String()},
+	}
 	for _, c := range cases {
 		for _, s := range senders {
 			for _, memo := range []string{"", "a"} {
 				t.Eval()
-				input := fmt.Sprintf("MsgRequestSignature(sender=%s,memo=%q,%s)", s, memo, c.desc)
+				input := fmt.Sprintf("MsgRequestSignature(sender=%s[%s],memo=%q,%s)", s.addr, s.role, memo, c.desc)
+				path := []string{"section=internal", input}
 				ctx := b.atTime(b.baseTime)
+				if s.role == "tss-member" {
+					if res := b.w.Tx(ctx, 0, banktypes.NewMsgSend(bandtesting.FeePayer.Address, member, uband(1_000_000))); !res.OK() {
+						engine.Fatal3("C11: cannot fund the tss member: %v", res.Err)
+					}
+				}
 				before := b.w.App.TSSKeeper.GetSigningCount(ctx)
-				res := b.requestSignature(ctx, c, s, memo)
+				beforeB := b.w.App.BandtssKeeper.GetSigningCount(ctx)
+				res := b.requestSignature(ctx, c, s.addr, memo)
 				t.Nontrivial(input)
-				if res.OK() || b.w.App.TSSKeeper.GetSigningCount(ctx) != before {
+				if res.OK() || b.w.App.TSSKeeper.GetSigningCount(ctx) != before || b.w.App.BandtssKeeper.GetSigningCount(ctx) != beforeB {
 					detail := input + ": accepted"
 					if m, err := b.signingMessage(ctx, before+1); err == nil {
 						detail += "; the group will sign " + short(m)
 					}
-					t.Violate(cfg, []string{"section=internal", input}, "internal-content:user-request-accepted:"+c.kind, detail)
+					t.Violate(cfg, path, "internal-content:request-accepted:"+c.kind+":sender="+s.role, detail)
+					continue
+				}
+				if !errors.Is(res.Err, bandtsstypes.ErrContentNotAllowed) {
+					// refused, but not because the kind is internal: the refusal is incidental (fee, funds, ...)
+					t.Violate(cfg, path, "internal-content:refused-for-another-reason:"+c.kind+":sender="+s.role,
+						fmt.Sprintf("%s: rejected with %s (%v), not with 'content not allowed'", input, res.ErrName(), res.Err))
 					continue
 				}
 				t.Saw("internal-rejected:" + c.kind)
+				t.Saw("internal-rejected:" + c.kind + ":sender=" + s.role)
 				t.Saw("internal-rejected:" + c.kind + ":" + res.ErrName())
 			}
 		}
